@@ -47,6 +47,11 @@ func (e *Envelope) Sign(req *signature.SignRequest) ([]byte, error) {
 	if err != nil {
 		return nil, err
 	}
+	// The internal envelope now holds the new signature. Drop the raw bytes
+	// of any previous signature until the new one has been validated, so that
+	// a request that is rejected below does not become the content reported
+	// by Verify() and Content().
+	e.Raw = nil
 
 	// validate certificate chain
 	content, err := e.Envelope.Content()
